@@ -1,4 +1,5 @@
 import LinfaSpec.Proofs.Wire
+import LinfaSpec.Proofs.Serde
 
 /-!
 # C19 — serialised models deserialise to behaviourally identical values: the wire format is lossless
@@ -109,5 +110,121 @@ theorem encode_prefix_free (v w : Val) (r s : Bytes) (hv : v.wf = true) (hw : w.
   exact ⟨(congrArg Prod.fst this).symm, (congrArg Prod.snd this).symm⟩
 
 example : encode (.uint 1) ++ [0x02] ≠ encode (.uint 1) ++ [0x03] := by decide
+
+/-! ## The derive glue: what a struct / enum of the schema table puts on the wire and gets back
+
+`LinfaSpec.Serde` (`Model/Serde.lean`) models `#[derive(Serialize, Deserialize)]` for a schema entry of the
+table generated from the Rust sources: the non-skipped fields travel positionally or by name, skipped
+fields come back as their default, enum variants travel by declaration index in index-based formats.
+The theorems hold for **every** schema (`List FieldInfo` / `List VariantInfo`) and **every** field
+values; `Props/GenC19.lean` instantiates their hypotheses on the table generated today. -/
+section Glue
+open LinfaSpec.Serde
+
+/-- **positional layout, end to end through the wire**: the bytes of a struct written positionally
+decode and deserialise to the original with every skipped field reset to its default -/
+theorem struct_compact_roundtrip (dflt : FieldInfo → Val) (fs : List FieldInfo) (vs : List Val)
+    (hl : fs.length = vs.length) (hw : (structVal false fs vs).wf = true) :
+    (decodeAll (encode (structVal false fs vs))).bind (deStruct dflt fs) = some (restore dflt fs vs) := by
+  rw [decodeAll_encode _ hw]
+  simp [structVal, deStruct, deFieldsSeq_serFields dflt fs vs hl]
+
+/-- **named layout, end to end through the wire**, for schemas whose live field names are distinct -/
+theorem struct_named_roundtrip (dflt : FieldInfo → Val) (fs : List FieldInfo) (vs : List Val)
+    (hl : fs.length = vs.length) (hn : nodupStrings (liveKeys fs) = true)
+    (hw : (structVal true fs vs).wf = true) :
+    (decodeAll (encode (structVal true fs vs))).bind (deStruct dflt fs) = some (restore dflt fs vs) := by
+  rw [decodeAll_encode _ hw]
+  simp [structVal, deStruct, deFieldsMap_serNamed dflt fs vs hl hn]
+
+private def exFs : List FieldInfo := [⟨"index", false, ""⟩, ⟨"core_distance", true, "skip"⟩, ⟨"reachability_distance", false, ""⟩]
+private def exVs : List Val := [.uint 3, .f64 0x4000000000000000, .nil]
+
+example : (decodeAll (encode (structVal false exFs exVs))).bind (deStruct (fun _ => .nil) exFs) =
+    some [.uint 3, .nil, .nil] :=
+  struct_compact_roundtrip _ exFs exVs rfl (by decide)
+
+example : (decodeAll (encode (structVal true exFs exVs))).bind (deStruct (fun _ => .nil) exFs) =
+    some [.uint 3, .nil, .nil] :=
+  struct_named_roundtrip _ exFs exVs rfl (by decide +kernel) (by decide +kernel)
+
+/-- **the round trip is the identity exactly when every skipped field already held its default** — a
+`serde(skip)` on a field that carries learned state (OPTICS `core_distance`) is a loss for every value
+whose field is not the default, in every format -/
+theorem roundtrip_identity_iff (dflt : FieldInfo → Val) (fs : List FieldInfo) (vs : List Val)
+    (hl : fs.length = vs.length) : restore dflt fs vs = vs ↔ SkippedAtDefault dflt fs vs :=
+  restore_eq_iff dflt fs vs hl
+
+example : restore (fun _ => .nil) exFs exVs ≠ exVs := by
+  rw [Ne, roundtrip_identity_iff _ exFs exVs rfl]
+  intro h; exact absurd (h.2.1 rfl) (by simp)
+
+/-- a schema without skipped fields restores every value unchanged -/
+theorem no_skip_roundtrip_identity (dflt : FieldInfo → Val) (fs : List FieldInfo) (vs : List Val)
+    (hl : fs.length = vs.length) (hs : fs.all (fun f => !f.skip) = true) : restore dflt fs vs = vs := by
+  rw [roundtrip_identity_iff dflt fs vs hl]
+  induction fs generalizing vs with
+  | nil => cases vs <;> simp [SkippedAtDefault]
+  | cons f fs ih =>
+    cases vs with
+    | nil => simp at hl
+    | cons v vs =>
+      simp only [List.all_cons, Bool.and_eq_true, Bool.not_eq_true'] at hs
+      exact ⟨fun h => absurd h (by simp [hs.1]), ih vs (by simpa using hl) hs.2⟩
+
+example : restore (fun _ => .nil) [⟨"a", false, ""⟩, ⟨"b", false, ""⟩] [.uint 1, .bool true] = [.uint 1, .bool true] :=
+  no_skip_roundtrip_identity _ _ _ rfl (by decide)
+
+/-- **a field left out of a positional message cannot be read back**: if fewer elements arrive than
+there are non-skipped fields (`skip_serializing_if` without a matching `default`, bincode / compact
+MessagePack), deserialisation fails — the restored parameter set does not exist -/
+theorem compact_restore_fails_when_field_omitted (dflt : FieldInfo → Val) (fs : List FieldInfo) (xs : List Val)
+    (h : xs.length < (liveFields fs).length) : deStruct dflt fs (.arr xs) = none := by
+  simp [deStruct, deFieldsSeq_short dflt fs xs h]
+
+example : deStruct (fun _ => .nil) exFs (.arr [.uint 3]) = none :=
+  compact_restore_fails_when_field_omitted _ exFs [.uint 3] (by decide)
+
+/-- the wire value of a struct has the top-level shape the driver checks real bytes against -/
+theorem struct_shape (named : Bool) (fs : List FieldInfo) (vs : List Val) (hl : fs.length = vs.length) :
+    bodyMatches named fs (structVal named fs vs) = true := by
+  cases named
+  · simp [structVal, bodyMatches, serFields_length fs vs hl]
+  · have := serNamed_keys fs vs hl
+    simp only [structVal, bodyMatches, if_true, Bool.true_and]
+    rw [this]; simp [liveKeys, keyOf]
+
+example : bodyMatches true exFs (structVal true exFs exVs) = true := struct_shape true exFs exVs rfl
+
+/-- **index-based enum tags round-trip when no skipped variant precedes a live one**: the declaration
+index written by derive(Serialize) selects the same variant among the non-skipped ones -/
+theorem variant_index_roundtrip (name : String) (ws : List VariantInfo) (k : Nat)
+    (hl : skippedLast ws = true) (h : serIndex name ws = some k) : deVariant ws k = some name :=
+  deVariant_serIndex name ws k hl h
+
+private def errNow : List VariantInfo :=
+  [⟨"Parameters", "newtype", false, []⟩, ⟨"NotEnoughSamples", "unit", false, []⟩, ⟨"MismatchedShapes", "tuple", false, []⟩, ⟨"NdShape", "newtype", true, []⟩]
+private def errOld : List VariantInfo :=
+  [⟨"Parameters", "newtype", false, []⟩, ⟨"NdShape", "newtype", true, []⟩, ⟨"NotEnoughSamples", "unit", false, []⟩, ⟨"MismatchedShapes", "tuple", false, []⟩]
+
+example : deVariant errNow 2 = some "MismatchedShapes" :=
+  variant_index_roundtrip "MismatchedShapes" errNow 2 (by decide) (by decide)
+
+/-- **… and fail otherwise**: a skipped variant declared in front of live ones (distinct names) makes
+every later variant read back as a different one (or as no variant) — the defect found in `linfa::Error` -/
+theorem variant_index_shifted_by_leading_skip (name : String) (w : VariantInfo) (ws : List VariantInfo) (k : Nat)
+    (hs : w.skip = true) (hn : (w.name == name) = false) (hd : nodupStrings (liveNames ws) = true)
+    (h : serIndex name ws = some k) :
+    (serIndex name (w :: ws)).bind (deVariant (w :: ws)) ≠ some name := by
+  have hsh := deVariant_shift name w ws k hs hn h
+  rw [hsh.1]
+  simp only [Option.bind_some, hsh.2]
+  exact deVariant_beyond_ne name ws k (k + 1) hd h (Nat.lt_succ_self k)
+
+example : (serIndex "NotEnoughSamples" errOld).bind (deVariant errOld) = some "MismatchedShapes" := by decide
+example : (serIndex "MismatchedShapes" (errOld.drop 1)).bind (deVariant (errOld.drop 1)) ≠ some "MismatchedShapes" :=
+  variant_index_shifted_by_leading_skip "MismatchedShapes" _ _ 1 rfl (by decide) (by decide) (by decide)
+
+end Glue
 
 end LinfaSpec.Props.C19
